@@ -16,14 +16,17 @@ Spec:   ListenerHttpReq.tla (requirement machine: per request class the
         ListenerHttpTrace.tla.
 TLC:    all 294 912 request classes through the repaired pipeline, all
         sequences of 3 (4) requests over a reduced alphabet; every lexeme
-        class at every converted position (368), alone and with one more
+        class at every converted position (368) and at every compared /
+        echoed string or nesting depth (65), alone and with one more
         deviation, followed by a valid indication; bounded queue (capacity 1;
         thorough also 2) with a held callback: all histories of 4 (5)
         requests, TLC prints the tester scripts that force the queue.Full
-        branch; eight regression configurations (the tree as read, a
+        branch; eleven regression configurations (the tree as read, a
         non-threaded server, a missing `return` after the queue-full answer,
         conversion guards that accept a trailing line feed / only look at the
-        beginning of the text) must fail.
+        beginning of the text, a response writer that refuses DEL / C1
+        controls, a case-insensitive parameter check with an exact-case
+        fetch, an unmapped RecursionError) must fail.
 Binding: a real WBEMListener on a loopback port; raw bytes written with the
         socket module, answers read with an own minimal HTTP reader; request
         classes enumerated by TLC (<= 2 deviations from the valid request;
@@ -66,6 +69,16 @@ REGRESSIONS = (
      "guards in front of type_from_name() / int(x, 16) that only look at "
      "the beginning of the text: ValueError leaves the reader",
      "ListenerHttpLex"),
+    ("ListenerHttpEchoRestricted.cfg", "InvNoDroppedConnection",
+     "response writer that refuses DEL / C1 controls (legal XML 1.0 "
+     "characters) of an echoed MESSAGE ID / method name: ValueError in the "
+     "handler after the indication was queued", "ListenerHttpLex"),
+    ("ListenerHttpParamCiCheck.cfg", "InvNoDroppedConnection",
+     "NewIndication checked case-insensitively but fetched with the exact "
+     "key: KeyError in the handler", "ListenerHttpLex"),
+    ("ListenerHttpLegacyDeep.cfg", "InvNoDroppedConnection",
+     "RecursionError of the reader (hundreds of nested reference keys) "
+     "not caught in do_POST (tree as read)", "ListenerHttpLex"),
 )
 
 # quick tier: how many of the TLC-emitted bounded-queue scripts are replayed
@@ -140,7 +153,7 @@ def tlc_classes(ctx):
     one = [H.cls_of(t) for t in vlib.unset(r.printed("CLS1")[0][1])]
     two = [H.cls_of(t) for t in vlib.unset(r.printed("CLS2")[0][1])]
     lex = [H.cls_of(t) for t in vlib.unset(r.printed("LEX1")[0][1])]
-    if len(one) != 39 or len(two) < 500 or len(lex) < 300:
+    if len(one) != 39 or len(two) < 500 or len(lex) < 420:
         raise vlib.MachineryError("class enumeration: %d/%d/%d" %
                                   (len(one), len(two), len(lex)))
     return one, two, lex
@@ -170,6 +183,8 @@ def random_class(rng, p, lex=()):
             if d == "body" and lex and rng.random() < 0.34:
                 x = rng.choice(lex)
                 c.update(body=x["body"], lpos=x["lpos"], lex=x["lex"])
+    if not H.consistent(c):
+        c[H.HDR_POS[c["lpos"]]] = "ok"
     return c
 
 
@@ -213,6 +228,7 @@ def plan(ctx, quick, scripts):
     others = [c for c in one if H.deviations(c) and c["body"] == "validExport"]
     combos = [dict(o, body=c["body"], lpos=c["lpos"], lex=c["lex"])
               for c in lex for o in others]
+    combos = [c for c in combos if H.consistent(c)]
     for c in (rng.sample(combos, 250) if quick else combos):
         hs.append(("tlc-lexeme2", [c, dict(H.VALID)]))
     for c in one:
@@ -330,12 +346,18 @@ def blame(ev, prev):
             return "%s:clen=%s" % (o["outcome"], c["clen"])
         if c["body"].endswith("U"):
             return "%s:body=wrongVersionU" % o["outcome"]
+        if c["lpos"] in H.NEW_POS and c["clen"] == "ok":
+            return "%s:body=%s,lpos=%s,lex=%s" % (o["outcome"], c["body"],
+                                                  c["lpos"], c["lex"])
         if c["lpos"] != "none" and c["clen"] == "ok":
             # (the position is in the description of the finding)
             return "%s:body=%s,lex=%s" % (o["outcome"], c["body"], c["lex"])
         return "%s:%s" % (o["outcome"],
                           ",".join("%s=%s" % (d, c[d]) for d in dev
                                    if d not in ("lpos", "lex")))
+    if c["lpos"] in H.NEW_POS:
+        return "status=%d,body=%s,lpos=%s" % (o["status"], c["body"],
+                                              c["lpos"])
     if c["lpos"] != "none":
         return "status=%d,%s" % (o["status"], "body=lexeme" if
                                  c["body"] == "lexeme" else "valid-lexeme")
@@ -475,12 +497,30 @@ def run(ctx):
         "reader is not a violation, a dropped connection is; inside a class "
         "the harness samples spellings (seeded); PARAMVALUE/PARAMTYPE cannot "
         "occur in an export request (DTD-invalid there: class wrongElement)",
+        "strings the handler compares with a fixed name or echoes into its "
+        "answer are decided per (position, class) as well: MESSAGE ID, "
+        "export method name and the three version texts x the classes of the "
+        "XML 1.0 Char production (DEL, C1 controls, NEL, Latin-1, BMP, "
+        "U+2028/9, U+FFFD, noncharacters, non-BMP; literally or as character "
+        "reference); method name, parameter name and the Accept / "
+        "Accept-Charset / Content-Type / Content-Encoding values in another "
+        "lexical case; a message id with any XML character is a VALID "
+        "indication (accepted, id echoed, delivered), a method name with "
+        "such a character must get the export ERROR, a version text the "
+        "4xx/5xx + CIMError; a NAME in another case may be accepted or "
+        "refused (any ONE well-formed answer); nesting depth of embedded "
+        "instances (few | tens) and of reference-valued keys (few | tens | "
+        "hundreds | thousands): a few levels must be accepted, deeper "
+        "nesting gets any ONE well-formed answer (a depth limit is not "
+        "forbidden, a dropped connection is); embedded instances nested "
+        "hundreds deep (megabyte bodies) are not driven",
         "request lines are syntactically valid HTTP/1.x (HTTP/0.9 and bad "
         "version tokens are not 'HTTP requests' of the quantifier); "
         "Expect/Transfer-Encoding are not driven",
         "header values that HTTP semantics would accept but pywbem compares "
-        "literally (q-values on Accept, upper-case media types) are not used "
-        "as representatives of either class",
+        "literally (q-values on Accept) are not used as representatives of "
+        "either class; admissible values in another lexical case are a class "
+        "of their own for which any ONE well-formed answer is accepted",
         "Content-Length values that fit a machine word but exceed memory "
         "(2^31..2^62) are not driven (they make the listener process "
         "allocate); 'huge' means >= 2^63",
